@@ -20,11 +20,16 @@ LEVEL_TEXT = ("Lean theorems over Model/Shm.lean. (a) content: granted get => th
               "before the close and during page-out/in. (c) protection: winners of page_out_at_least are is_pageoutable; a dataset with a reader younger than STALE_READ is "
               "untouched by EVERY step of every client and disk job except that reader's own close (all invariant states). (d) a purge during a read only sets "
               "delayed_purge and the close that leaves no reader executes it (any number of readers; every in_memory state); false when the dataset was evicted under readers "
-              "gone stale (c09_delayed_purge_stale_full_fails, known finding). (e) lock discipline after EVERY history; a batch in flight always ends "
+              "gone stale (c09_delayed_purge_stale_full_fails, known finding). (e) lock discipline (pageout_all held <=> a page-out job pending, counter = number of them) after EVERY history of HANDLER-ATOMIC steps "
+              "(c09_lock_discipline), and at thread level for the counter itself: with the decrement split into acquire/read/write/test/release micro steps and the callbacks "
+              "of a batch interleaving in every way, the counter ends at 0 and pageout_all is released exactly once, by the last one, when every callback takes pageout_one "
+              "(c09_batch_lock_released_exact); false with the decrement outside the lock (c09_unlocked_decrement_full_fails: the lock is held for ever; the harness forces that "
+              "window on the real callbacks); a batch in flight always ends "
               "(c09_batch_in_flight_ends, every history, any outcomes); a page-out returns its space whatever its outcome; eventual grant from ANY SafeRun-reachable state with "
               "ANY outcomes of the disk jobs, for add and for get of a dataset on disk (evict, page in, grant), and at the API the workers use: client.allocate returns the "
               "buffer after at most two requests and client.get of a dataset on disk after at most three when the environment completes the launched jobs during the "
-              "pauses, for every timeout above 100 / 200 ms; TimeoutError only after the budget is used up (wait is never fatal). Unbounded histories, keys, clients; tied to the real Manager, server loop and client layer step by step.")
+              "pauses, for every timeout above 100 / 200 ms; TimeoutError only after the budget is used up (wait is never fatal); the buffer client.get returns closes with the reader id the store registered for that very read (c09_client_get_close_id). Unbounded histories, keys, clients; tied to the real Manager (brought up through server.entrypoint / LocalServer.__init__), the server loop LocalServer.start and the client layer step by step, "
+              "on sampled histories of at most 80 (thorough 120) ops.")
 LEVEL_NOTE = ("modelled, not verified: as C08. Known exceptions kept as _full_fails witnesses replayed on the real store: a writer older than STALE_CREATE is treated as dead "
               "(C09-stale-writer-readable), a dataset dropped while being written + key reuse (C09-purge-created-key-reuse), purge requests racing an in-flight disk job "
               "(C08-purge-in-flight, the excluded class SafeRun), a reader's close refused after eviction under stale readers (C09-stale-reader-close). Liveness is stated per "
@@ -39,7 +44,7 @@ RULE = ("as C08 with the read-heavy profile: more get / purge-during-read / cloc
         "failures, STALE_CREATE != STALE_READ, life-cycle histories (same key, same size, other bytes, across eviction and page-in) as in C08. The content oracle compares "
         "whole byte strings with a pattern that is not periodic in 256 or 4096. non-trivial = history with a completed disk-job callback, a 'wait' answer or a granted get")
 ASSUMPTIONS = [
-    "request handlers and pool-thread callbacks are atomic steps (free_space updates: see C08); a disk job is an I/O step plus a callback step",
+    "request handlers and pool-thread callbacks are atomic steps (free_space and pageout_count updates, the scan of Manager.datasets: see C08); a disk job is an I/O step plus a callback step",
     "the writer creates its segment with the granted size while its dataset is still 'created' (executed for real in the client ops)",
     "time.time_ns, uuid.uuid4, time.sleep and socket of the client module are replaced by deterministic fakes; get_capacity() is stubbed; the per-process multiprocessing resource tracker is disabled in the harness process; STALE_CREATE/STALE_READ are replaced by small, mostly different values",
     "eventual grant is claimed when every client has finished what it holds and the disk jobs complete between the attempts: any new key with size <= capacity; any dataset the store still holds",
